@@ -289,3 +289,48 @@ def enrich(base_data):
     d = replace_table(base_data, b'Glat', glat)
     d = replace_table(d, b'Gloc', gloc)
     return replace_table(d, b'Feat', hdr + recs + sets)
+
+
+def silf_full_map(gid_a, max_glyph, n_next, extra=()):
+    """a Silf (version 2, one substitution pass, one rule) whose rule is matched one slot after the start of a slot map that the FSM
+    returns completely full: pass maxRulePreContext 1, rule pre-context 0, sort key 63, action = extra opcodes + n_next x NEXT + RET_ZERO.
+    The loader admits 63 NEXTs for a 63-slot rule; with a 64-entry map the cursor then stands one past the last map entry."""
+    w = bytearray()
+    def u8(v): w.append(v & 255)
+    def u16(v): w.extend(struct.pack('>H', v & 0xFFFF))
+    def u32(v): w.extend(struct.pack('>I', v & 0xFFFFFFFF))
+    u32(0x00020000); u16(1); u16(0); u32(12)
+    sub = len(w)
+    u16(max_glyph); u16(0); u16(0)
+    for v in (1, 0, 1, 1, 0xFF): u8(v)                       # numPasses, iSubst, iPos, iJust, iBidi
+    for v in (0, 1, 63): u8(v)                               # flags, maxPreContext, maxPostContext
+    for v in (0, 1, 2, 0, 0): u8(v)                          # attrPseudo, attrBreakWeight, attrDirectionality, attrMirroring, attrSkipPasses
+    u8(0)                                                    # numJLevels
+    u16(0); u8(0); u8(0); u8(1); u8(0)                       # numLigComp, numUserDefn, maxCompPerLig, direction, attCollisions
+    for v in (0, 0, 0, 0, 0, 0): u8(v)
+    u16(0)                                                   # lbGID
+    o_passes = len(w); u32(0); u32(0)
+    for v in (0, 0, 0, 0): u16(v)                            # pseudo map header
+    u16(1); u16(1); u16(8); u16(10); u16(gid_a)              # class map: one linear class { gid_a }
+    pas = len(w); w[o_passes:o_passes + 4] = struct.pack('>I', pas - sub)
+    action = bytes(extra) + bytes([OP['NEXT']] * n_next) + bytes([OP['RET_ZERO']])
+    for v in (0, 4, 64, 0): u8(v)                            # flags, maxRuleLoop, maxRuleContext, maxBackup
+    u16(1); u16(0)                                           # numRules, fsmOffset
+    code_offs = len(w); u32(0); u32(0); u32(0); u32(0)
+    for v in (3, 3, 1, 1): u16(v)                            # numRows, numTransitional, numSuccess, numColumns
+    for v in (1, 0, 0, 0): u16(v)                            # numRange ...
+    u16(gid_a); u16(gid_a); u16(0)
+    u16(0); u16(1); u16(0)                                   # oRuleMap[2], ruleMap[1]
+    u8(0); u8(1)                                             # minRulePreContext, maxRulePreContext
+    u16(0); u16(1)                                           # start states: one slot of context -> state 0, none -> state 1
+    u16(63); u8(0)                                           # sort key, rule pre-context
+    u8(0); u16(0)                                            # collision threshold, pass constraint length
+    u16(0); u16(0)                                           # oConstraints[2]
+    u16(0); u16(len(action))                                 # oActions[2]
+    u16(2); u16(1); u16(2)                                   # state transitions
+    u8(0)
+    code = len(w) - sub
+    w[code_offs:code_offs + 12] = struct.pack('>III', code, code, code)
+    w.extend(action)
+    w[o_passes + 4:o_passes + 8] = struct.pack('>I', len(w) - sub)
+    return bytes(w)
